@@ -91,6 +91,7 @@ def run(ctx):
     r.rule("C14.walkers", "stdout/JSON/JUnit walkers: same domain, same field sources, only the documented JUnit error-type filter")
     r.rule("C14.counts", "total = len(printed list); severity counters +1 per printed entry by its severity name")
     r.rule("C14.exit", "exit status: truthy constant in error handlers, rule_list.violations otherwise, or-folded over all files, sys.exit on every path")
+    r.rule("C14.gate", "what a report format contains is never gated by the exit-status flag: the producers of the stdout, JSON and JUnit content in apply_rules run whatever rule_list.violations says (it is set by error-type violations only)")
     r.rule("C14.type", "error-ness is decided by severity type, never by the name 'Error'")
     r.explanation = (
         "Each walker's loops, guards and stored expressions are extracted from the AST and mapped to abstract fields "
@@ -212,6 +213,7 @@ def run(ctx):
     _counts(r, rep)
     _exit(r, p, cg)
     _type(r, p)
+    _gate(r, p)
     return r
 
 
@@ -281,6 +283,40 @@ def _walker_domain(r, fi, label, allow_error_filter=False):
     if not bad:
         r.ok("C14.walkers", K + ":domain", "self.rules x %s.violations%s" % (rvar, " (error-type only, documented)" if allow_error_filter else ""))
     return rvar, vvar
+
+
+def _gate(r, p):
+    """rule_list.violations is the exit-status flag (check_rules sets it for error-type violations only).  A file whose
+    violations are all warnings has the flag False and still has report content: a producer of report content that is
+    dominated by a test of the flag - in apply_rules or in a helper it calls, together with the call site's guards -
+    leaves the warnings out of one format while the others list them."""
+    import re as _re
+
+    PRODUCERS = ("extract_violation_dictionary", "report_violations", "extract_junit_testcase")
+    mod = [fi for fi in p.functions.values() if fi.module.name == "vsg.apply_rules"]
+    n_prod = 0
+
+    def flag_guard(fi, node):
+        f = Facts(fi.node)
+        return [t for t, pol in f.conds_at(node) if _re.search(r"\.violations\b(?!\[)", t) or _re.search(r"\bfExitStatus\b", t)]
+
+    for fi in sorted(mod, key=lambda f: f.key):
+        for n in walk_function(fi.node):
+            if isinstance(n, ast.Call) and isinstance(n.func, ast.Attribute) and n.func.attr in PRODUCERS:
+                n_prod += 1
+                bad = flag_guard(fi, n)
+                # guards at the call sites of the helper that contains the producer
+                for g in mod:
+                    for c in walk_function(g.node):
+                        if isinstance(c, ast.Call) and isinstance(c.func, ast.Name) and c.func.id == fi.name and g is not fi:
+                            bad += flag_guard(g, c)
+                kk = "%s:%s" % (fi.key, n.func.attr)
+                if bad:
+                    r.fail("C14.gate", kk, "%s() runs only under `%s`, a test of the exit-status flag: a file with warning-type violations only (flag False) gets no entries in this format while the other formats list them" % (n.func.attr, bad[0][:60]), fi.loc(n))
+                else:
+                    r.ok("C14.gate", kk, "not dominated by a test of the exit-status flag")
+    if n_prod < 3:
+        raise AnalysisError("only %d report producers found in vsg.apply_rules" % n_prod)
 
 
 def _counts(r, rep):
@@ -472,6 +508,11 @@ def _type(r, p):
 
 _RL = "vsg/rule_list.py"
 VARIANTS = [
+    Variant("C14", "JSON entry filled only when the exit-status flag is set", "fire",
+            [("vsg/apply_rules.py", "        dJsonEntry[\"violations\"] = oRules.extract_violation_dictionary()[\"violations\"]", "        dJsonEntry[\"violations\"] = []\n        if oRules.violations:\n            dJsonEntry[\"violations\"] = oRules.extract_violation_dictionary()[\"violations\"]")],
+            rule="C14.gate", key="extract_violation_dictionary"),
+    Variant("C14", "twin: JSON request flag held in a local", "silent",
+            [("vsg/apply_rules.py", "    if commandLineArguments.json or commandLineArguments.quality_report:\n        dJsonEntry[\"file_path\"] = sFileName", "    bWantJson = commandLineArguments.json or commandLineArguments.quality_report\n    if bWantJson:\n        dJsonEntry[\"file_path\"] = sFileName")]),
     Variant("C14", "JSON skips warnings", "fire",
             [(_RL, "            if oRule.has_violations:\n                for oViolation in oRule.violations:", "            if oRule.has_violations and oRule.severity.type == severity.error_type:\n                for oViolation in oRule.violations:")],
             rule="C14.walkers", key="extract_violation_dictionary"),
